@@ -303,9 +303,16 @@ class CRTWorld:
         req.finished = True
         t['future_resolved'] = sim.stamp()
         sim.spoint('crt.between')
-        kw['on_done'](error=error, error_headers=None, error_body=None,
-                      error_operation_name=None, status_code=None,
-                      did_validate_checksum=False, checksum_validation_algorithm=None)
+        try:
+            kw['on_done'](error=error, error_headers=None, error_body=None,
+                          error_operation_name=None, status_code=None,
+                          did_validate_checksum=False, checksum_validation_algorithm=None)
+        except kernel.SimAbort:
+            raise
+        except Exception:   # noqa
+            # the native layer reports an exception that escapes a Python
+            # callback and drops it; the request is over either way
+            self.probe('on_done-raised')
         self.callbacks_done += 1
         t['on_done_returned'] = sim.stamp()
         v = self.mgr._semaphore._value
